@@ -171,7 +171,15 @@ class CrashCase:
         inits = ";".join(f"{final_names[rel]}:{hx(c)}" for rel, c in self.init_files.items()) or "."
         req = "sim 0 %s %s %d %s %s" % ("!" if old_bytes is None else hx(old_bytes), hx(new_bytes),
                                         len(final_names), inits, " ".join(op_tok(o) for o in sim0.ops))
-        ans = self.drv.batch([req])[0]
+        reqs = [req]
+        kind = {"inplace": "inplace", "atomic": "atomic", "atomic-nofsync": "nofsync"}.get(res["shape"])
+        if kind:
+            # the observed operation list must literally be the procedure the theorems are about
+            tmp = sim0.ops[0][2]
+            reqs.append("proc %s %d %d 0 %s" % (kind, sim0.ops[0][1], tmp, " ".join(hx(o[2]) for o in sim0.ops if o[0] == "W")))
+        answers = self.drv.batch(reqs)
+        ans = answers[0]
+        res["proc_matches"] = (answers[1] == " ".join(op_tok(o) for o in sim0.ops)) if kind else None
         model = {}
         for ent in ans.split("|"):
             n, v, cls, lst = ent.split(";")
@@ -315,6 +323,11 @@ def judge_crash_case(site, res, have_old, cov, viols, first_violation, stats, ca
     if res["unsupported"]:
         viols.append(violation(f"{site}:shim-unsupported", f"{site}: file operation outside the shim's vocabulary: "
                                f"{res['unsupported'][:3]}", False, broken="file-system shim coverage"))
+    if res.get("proc_matches") is False:
+        viols.append(violation(f"{site}:model-mismatch:procedure", f"{site}: the operation list looks like the "
+                               f"{res['shape']} procedure but differs from the model's list", False,
+                               ops=[op_tok(o)[:60] for o in res["ops"]][:12], broken="Model/Persist.v save_" + res["shape"]))
+    stats["procedure_is_modelled_one"] = stats.get("procedure_is_modelled_one", 0) + (res.get("proc_matches") is True)
     inv = {v: k for k, v in res["names"].items()}
     allowed = ok_with_old if have_old else ok_fresh
     for pt in res["points"]:
@@ -695,6 +708,7 @@ def wf_map(j):
     from ref.c20_uuid import ref_normalize
     try:
         for a in j:
+            _ = a["aid"]
             sids = [sv["iid"] for sv in a["services"]]
             if len(set(sids)) != len(sids) or not all(isinstance(i, int) and not isinstance(i, bool) and i != 0 for i in sids):
                 return False
@@ -808,7 +822,12 @@ def stream_emap(ctx, drv, cov, viols, r):
                                 bad = f"characteristic {x['aid']}.{cx['iid']}: fields {ks} changed: " \
                                       f"{ {k: cx[k] for k in ks} } -> { {k: cy[k] for k in ks} }"
             if bad:
-                fields = bad.split("fields ")[1].split(" changed")[0] if "fields " in bad else bad.split(":")[0][:30]
+                if "fields " in bad:
+                    fields = bad.split("fields ")[1].split(" changed")[0]
+                elif "service " in bad:
+                    fields = bad.split(": ")[1].split(" changed")[0]
+                else:
+                    fields = "reload-fails"
                 key = "entity_roundtrip:" + fields.replace(" ", "").replace("'", "")
                 if key not in seen:
                     seen.add(key)
@@ -825,6 +844,8 @@ def stream_emap(ctx, drv, cov, viols, r):
         md1, mser, md2 = model[0][1], model[1][1], model[2]
         applicable = len(model) > 3 and model[3] == ("ok", True)
         stats["theorem_applicable"] = stats.get("theorem_applicable", 0) + applicable
+        if kind.startswith("fixture:"):
+            stats["fixtures_theorem_applicable"] = stats.get("fixtures_theorem_applicable", 0) + applicable
         if wf and not applicable:
             stats["oracle_domain_outside_theorem_domain"] = stats.get("oracle_domain_outside_theorem_domain", 0) + 1
             stats.setdefault("outside_examples", [])
@@ -868,6 +889,8 @@ def stream_entry(ctx, drv, cov, viols, root, r):
     for i in range(n):
         reset_dir(root, {})
         emap = gen_entity_map(r, True, small=(i % 3 != 0))
+        while not wf_map(emap):
+            emap = gen_entity_map(r, True, small=(i % 3 != 0))
         hkid = ":".join(f"{r.getrandbits(8):02X}" for _ in range(6))
         if i % 4 == 1:
             hkid = hkid.lower()
@@ -983,7 +1006,7 @@ def stream_pairs(ctx, drv, cov, viols, root, r):
                 return False
             if t in ("IP", "CoAP"):
                 return "AccessoryIP" in d and "AccessoryPort" in d
-            return t == "BLE"
+            return t == "BLE" and "AccessoryAddress" in d
         wf = all(wfp(d) for d in ps.values())
         stats["files"] += 1
         stats["wf"] += wf
